@@ -69,12 +69,27 @@ def gen_dataset(tape, ncomp=None, nmin=12, nmax=60, allow_2d=True, allow_extra=T
     shape = None
     if allow_2d and tape.coin(0.3, f"{tag}.2d"):
         shape = _factor(n)
+    layout = "C"
     if shape is not None:
         coords = [c.reshape(shape) for c in coords]
         comps = [c.reshape(shape) for c in comps]
         if w is not None:
             w = tuple(i.reshape(shape) for i in w)
-    desc = {"n": n, "ncomp": ncomp, "weights": bool(weights), "shape": shape, "ncoords": len(coords)}
+        # same logical arrays, other memory layouts: Fortran order, transposed views, or a mix
+        layout = tape.weighted([("C", 3), ("F", 1), ("view", 1), ("mixed", 1)], f"{tag}.layout")
+
+        def relayout(a, k):
+            if layout == "F" or (layout == "mixed" and k % 2 == 0):
+                return np.asfortranarray(a)
+            if layout == "view" or (layout == "mixed" and k % 3 == 1):
+                return np.ascontiguousarray(a.T).T  # a transposed view of a C array (not C-contiguous)
+            return a
+
+        coords = [relayout(c, k) for k, c in enumerate(coords)]
+        comps = [relayout(c, k + 1) for k, c in enumerate(comps)]
+        if w is not None:
+            w = tuple(relayout(i, k + 2) for k, i in enumerate(w))
+    desc = {"n": n, "ncomp": ncomp, "weights": bool(weights), "shape": shape, "layout": layout, "ncoords": len(coords)}
     return Dataset(tuple(coords), tuple(comps), w, desc)
 
 
